@@ -452,6 +452,7 @@ fn run_iter_twin(
     gaps: &[u64],
     w: u16,
     nontty: &NonTty,
+    back: bool,
 ) -> (Case, Vec<StepObs>, Vec<usize>) {
     use indicatif::verif_clock as vc;
     use indicatif::ProgressIterator;
@@ -510,7 +511,8 @@ fn run_iter_twin(
             obs.push(StepObs { emitted: spy.take(), ok: true, getters: vec![Some(get(&it.progress))], panic: r.err() });
         }
         tick(&mut t);
-        let item = catch(|| it.next());
+        // `back`: the DoubleEndedIterator side (next_back has its own copy of the finish-on-None code)
+        let item = catch(|| if back { it.next_back() } else { it.next() });
         calls += 1;
         let emitted = spy.take();
         // the getters are read through a live handle, BEFORE anything is dropped
@@ -577,20 +579,23 @@ fn iter_twins(s: &mut Session, r: &mut Rng, rounds: usize, nontty: &NonTty) {
                         _ => Some(items as u64),
                     };
                     let early = r.chance(1, 5);
+                    let back = r.chance(1, 2);
                     let w = *r.pick(&[8u16, 20]);
                     let gaps: Vec<u64> = (0..8).map(|_| *r.pick(&[0u64, 1, 1000, 60_000_000])).collect();
                     let before = nontty.written();
-                    let (case, obs, nones) = run_iter_twin(way, false, own, fin, len, items, early, &gaps, w, nontty);
-                    let (_tc, tobs, _) = run_iter_twin(way, true, own, fin, len, items, early, &gaps, w, nontty);
+                    let (case, obs, nones) = run_iter_twin(way, false, own, fin, len, items, early, &gaps, w, nontty, back);
+                    let (_tc, tobs, _) = run_iter_twin(way, true, own, fin, len, items, early, &gaps, w, nontty, back);
                     let desc = format!(
-                        "iterator way={} adaptor={} fin={:?} items={items} early-finish={early} {}",
+                        "iterator way={} adaptor={} via={} fin={:?} items={items} early-finish={early} {}",
                         ITER_WAYS[way],
                         if own { "progress_with(only handle)" } else { "wrap_iter(other handle alive)" },
+                        if back { "next_back" } else { "next" },
                         fin,
                         describe(&case)
                     );
                     s.count(&format!("iter-way:{}", ITER_WAYS[way]));
                     s.count(if own { "iter-adaptor:progress_with" } else { "iter-adaptor:wrap_iter" });
+                    s.count(if back { "iter-via:next_back" } else { "iter-via:next" });
                     s.count(&format!("iter-fin:{}", Op::Finish(0, fin.clone()).name()));
                     if let Some(p) = obs.iter().chain(tobs.iter()).find_map(|o| o.panic.clone()) {
                         s.fail("panic", p, desc.clone());
@@ -652,7 +657,7 @@ fn main() {
     );
     let mut s = Session::new(&a, "C06", &header, "c04case", "c04_check");
     s.shard_size = 150;
-    s.rule = "histories of 5-35 ops over 1-3 bars drawing on every public op (tick/inc/dec/set_position/length ops/set_message/set_prefix/set_style/println/suspend/reset*/finish variants/finish_using_style/force_draw/set_tab_width/drop/add/insert*/remove, mp.println/suspend/clear/set_alignment), in four configurations: all targets ProgressDrawTarget::hidden(); members of a hidden MultiProgress; bars removed from a visible MultiProgress; mixed hidden/visible. Each history also runs on a visible twin (hidden targets replaced by terminals) and, for the first two configurations, with a console::Term that is not a tty (bars resp. the MultiProgress), also constructed with refresh rate 0 (documented panic at construction, or as silent as any other rate). Plus iterator-driven completion: one bar hidden in each of the four ways (hidden target, non-tty Term, member of a hidden MultiProgress, removed bar) x {progress_with: only handle, wrap_iter: other handle alive} x the five ProgressFinish variants, driven next() by next() to exhaustion and once more, getters read through a live handle after every step (before anything is dropped) and compared with the visible twin; the None steps are evaluated in the model with iter_none_step (CIter cases). Oracle: calls with a hidden subject make no TermLike call / write no byte; getters equal the twin's after every op; is_hidden(). non-trivial = at least 5 ops with a hidden subject and the twin emitted calls; distinct = distinct case text".into();
+    s.rule = "histories of 5-35 ops over 1-3 bars drawing on every public op (tick/inc/dec/set_position/length ops/set_message/set_prefix/set_style/println/suspend/reset*/finish variants/finish_using_style/force_draw/set_tab_width/drop/add/insert*/remove, mp.println/suspend/clear/set_alignment), in four configurations: all targets ProgressDrawTarget::hidden(); members of a hidden MultiProgress; bars removed from a visible MultiProgress; mixed hidden/visible. Each history also runs on a visible twin (hidden targets replaced by terminals) and, for the first two configurations, with a console::Term that is not a tty (bars resp. the MultiProgress), also constructed with refresh rate 0 (documented panic at construction, or as silent as any other rate). Plus iterator-driven completion: one bar hidden in each of the four ways (hidden target, non-tty Term, member of a hidden MultiProgress, removed bar) x {progress_with: only handle, wrap_iter: other handle alive} x the five ProgressFinish variants, driven next() by next() (half of the cases: next_back() by next_back()) to exhaustion and once more, getters read through a live handle after every step (before anything is dropped) and compared with the visible twin; the None steps are evaluated in the model with iter_none_step (CIter cases). Oracle: calls with a hidden subject make no TermLike call / write no byte; getters equal the twin's after every op; is_hidden(). non-trivial = at least 5 ops with a hidden subject and the twin emitted calls; distinct = distinct case text".into();
     let mut r = Rng::new(a.seed);
     let n = if a.thorough { 4000 } else if a.extended { 2500 } else { 400 };
     let nontty = NonTty::new(&a.out);
